@@ -526,6 +526,17 @@ func directedSets(yield func(Case) bool) {
 		}
 	}
 
+	// setCronTrigger with cron specs which pass validation (the provider's cron thread is stopped, nothing
+	// fires) and with malformed ones
+	for _, spec := range []string{"1 1 1 1 1 1", "* * * * * *", "*%2 *%3 *%5 *%7 *%11 *%3", "0,1,59 0-59 1 1 1 0", "*%1 * * * * *", "*%0 * * * * *", "*% * * * * *",
+		"60 * * * * *", "* * * 0 * *", "* * * * 13 *", "* * * * * 7", "1 1 1 1 1", "1 1 1 1 1 1 1", "a b c d e f", "-1 * * * * *", "1.5 * * * * *", "*%a * * * * *", ", , , , , ,", "     ", ""} {
+		for _, v := range []string{`"ev", "a.b"`, `null, null`, `[1], {}`, `"", ""`} {
+			if !yield(Case{Kind: "directed", Src: "x := setCronTrigger(\"" + spec + "\", " + v + ")\nlog(x)", Key: "directed:cron(" + spec + ";" + v + ")"}) {
+				return
+			}
+		}
+	}
+
 	// raise with 0..4 arguments and every try / except shape around it
 	raises := []cval{
 		{"0", "raise()"}, {"null", "raise(null)"}, {"str", "raise(\"T\")"}, {"str,str", "raise(\"T\", \"d\")"}, {"str,str,list", "raise(\"T\", \"d\", [1])"},
@@ -572,7 +583,7 @@ func TestExhaustive(t *testing.T) {
 	hx.E.Exhaustive("access", map[string]interface{}{"containers": names(containers), "index_kinds": inames(indexKinds), "second_level_index_kinds": map[bool]interface{}{false: inames(indexKinds2), true: "all index kinds"}[hx.Thorough()],
 		"forms": "read, write, call, dot read/write after index, del, add (x index kind); two level read / write (x index kind x second level kind); 50 dotted / call / doc / new forms"})
 	hx.Enumerate(t, "directed", directedSets, runCase)
-	hx.E.Exhaustive("directed", "49 destructuring / guard / literal / function / object forms x (U + 12 list shapes); 12 assignment targets x 7 replacement values for a container changed by the right side; 24 raising statements x 15 try/except shapes")
+	hx.E.Exhaustive("directed", "49 destructuring / guard / literal / function / object forms x (U + 12 list shapes); 12 assignment targets x 7 replacement values for a container changed by the right side; 20 cron specs x 4 name / kind pairs; 24 raising statements x 15 try/except shapes")
 	hx.Enumerate(t, "corpus", corpusSet, runCase)
 	hx.Enumerate(t, "sinks", sinkMatrix, runCase)
 	hx.E.Exhaustive("sinks", "each of the five sink attributes x U; statematch value x event state value over U x U; scope argument, scope values, event name / kind / state over U; 20 sink bodies x state value over U - all through Processor.ProcessEvent on the calling goroutine, every 9th case (thorough: every case) also through the pool with addEventAndWait")
